@@ -663,19 +663,47 @@ func check(prop, tier string) int {
 			}
 		}
 		fmt.Fprintf(os.Stderr, "dsim: %d unlisted violation(s); first: class=%s key=%s\n  %s\n", len(unknown), h.v.Class, h.v.Key, h.v.Detail)
-		sc := *h.r.Scenario
-		if len(h.v.Pinned) > 0 {
-			sc.Body = h.v.Pinned
+		// A violation is reported only with a replay file that reproduces it. Harnesses that leave
+		// dolt's own helper goroutines unscheduled (DESIGN 3.2) do not replay every run bit for bit, so
+		// when the first violating run does not reproduce, the other violating runs are tried (same
+		// class first) before the failure is put down to the machinery.
+		cands := []hit{h}
+		for pass := 0; pass < 2; pass++ {
+			for _, u := range unknown {
+				if u.r == h.r || len(cands) >= 8 {
+					continue
+				}
+				dup := false
+				for _, c := range cands {
+					dup = dup || c.r == u.r
+				}
+				if !dup && (u.v.Class == h.v.Class) == (pass == 0) {
+					cands = append(cands, u)
+				}
+			}
 		}
-		final, fv, status := minimise(binPath, scratch, &sc, h.v, p, known, prop)
-		switch status {
-		case "nonrepro":
-			// keep both for triage; machinery defect, not a violation
+		var final *scenario
+		var fv *violation
+		status := "nonrepro"
+		for ci, c := range cands {
+			sc := *c.r.Scenario
+			if len(c.v.Pinned) > 0 {
+				sc.Body = c.v.Pinned
+			}
+			final, fv, status = minimise(binPath, scratch, &sc, c.v, p, known, prop)
+			if status != "nonrepro" {
+				h = c
+				break
+			}
+			// keep for triage; machinery defect unless another run reproduces
 			os.MkdirAll(filepath.Join(verifDir, "replays"), 0o755)
-			pf := filepath.Join(verifDir, "replays", fmt.Sprintf("%s-nonrepro-%d.json", prop, h.r.Seed))
-			b, _ := json.MarshalIndent(map[string]any{"scenario": sc, "violation": h.v}, "", " ")
+			pf := filepath.Join(verifDir, "replays", fmt.Sprintf("%s-nonrepro-%d.json", prop, c.r.Seed))
+			b, _ := json.MarshalIndent(map[string]any{"scenario": sc, "violation": c.v}, "", " ")
 			os.WriteFile(pf, b, 0o644)
-			fmt.Fprintf(os.Stderr, "dsim: violation did not reproduce on replay (machinery defect, saved %s)\n", pf)
+			fmt.Fprintf(os.Stderr, "dsim: violation of run seed %d did not reproduce on replay (saved %s); %d more violating run(s) to try\n", c.r.Seed, pf, len(cands)-ci-1)
+		}
+		if status == "nonrepro" {
+			fmt.Fprintf(os.Stderr, "dsim: no violating run reproduced on replay (machinery defect, not reported as a violation)\n")
 			writeEvidence(prop, ev)
 			return 2
 		}
